@@ -355,6 +355,74 @@ def async_server(sym, tier):
     return r
 
 
+def batch_processor(sym, tier):
+    """A real BatchProcessor (batch size 1-3, flush timeout none or 5 ns, 2 ns to process a batch) fed 4 items
+    at symbolic instants: every item is forwarded exactly once, at the instant the specification gives -
+    (arrival of the item that fills its batch, or the timeout counted from the first item of the batch)
+    plus the processing time - and nothing is left buffered when a timeout is configured."""
+    from happysimulator.components.industrial.batch_processor import BatchProcessor
+    r = Result()
+    bs = 1 + sym.choice("batch_size_minus_1", 3)
+    to_ns = [0, 5][sym.choice("timeout", 2)]
+    PT = 2
+    done = []
+    sink = Sink("sink", done)
+    bp = BatchProcessor("bp", downstream=sink, batch_size=bs, process_time=PT * 1e-9, timeout_s=to_ns * 1e-9)
+    m = 3 if tier == "quick" else 4
+    ts = [sym.int(f"arrive{i}", 0, 8) for i in range(m)]
+    sim = Simulation(entities=[bp, sink])
+    mon = Monitor(sim, cap=60)
+    sim.schedule([mk_event(ts[i], f"item{i}", bp) for i in range(m)])
+    try:
+        sim.run()
+    except SpinDetected:
+        pass
+    mon.judge(r, "batch_processor")
+    # reference: arrivals in (time, creation) order
+    order = sorted(range(m), key=lambda i: (ts[i], i))
+    expect = {}
+    buf, deadline = [], None
+    evs = [(ts[i], 1, i) for i in order]
+    k = 0
+    pending = list(evs)
+    while pending or deadline is not None:
+        nxt_t = pending[0][0] if pending else None
+        if deadline is not None and (nxt_t is None or deadline < nxt_t or (deadline == nxt_t and False)):
+            t_ = deadline
+            deadline = None
+            if buf:
+                for j in buf:
+                    expect[j] = t_ + PT
+                buf = []
+            continue
+        t_, _k, i = pending.pop(0)
+        buf.append(i)
+        if len(buf) >= bs:
+            for j in buf:
+                expect[j] = t_ + PT
+            buf, deadline = [], None
+        elif len(buf) == 1 and to_ns > 0:
+            deadline = t_ + to_ns
+    got = {}
+    for (lbl, t_) in done:
+        got.setdefault(int(lbl[4:]), []).append(t_)
+    if any(len(v) != 1 for v in got.values()):
+        r.bad("request_completed_at_most_once", {"forwarded": done})
+    same_instant_tie = any(ts[a] + to_ns == ts[b] for a in range(m) for b in range(m) if a != b) if to_ns else False
+    if not same_instant_tie:      # a timeout at the very instant of an arrival may legitimately go either way
+        flat = {i: v[0] for i, v in got.items()}
+        if flat != expect:
+            r.bad("batch_flushes_when_full_or_at_its_timeout", {"forwarded_at_ns": flat, "specified": expect, "arrivals_ns": ts, "batch_size": bs, "timeout_ns": to_ns})
+    if to_ns and bp.buffer_depth:
+        r.bad("nothing_left_buffered_when_a_timeout_is_set", bp.buffer_depth)
+    if to_ns and any(expect.get(i) == ts[i] + to_ns + PT for i in range(m)):
+        r.wit.add("flushed_by_timeout")
+    if any(expect.get(i) == ts[i] + PT for i in range(m)):
+        r.wit.add("flushed_when_full")
+    r.obs = {"done": done}
+    return r
+
+
 def _pipe_classify(clause, draws, obs):
     return None
 
@@ -414,4 +482,10 @@ HARNESSES = [
       functions=["AsyncServer.handle_event/_start_cpu_processing/_on_cpu_complete/_process_next_cpu_task/_complete_request"],
       bounds=lambda tier: {"requests": 3, "arrivals": "symbolic ns [0,4]", "cpu ns": 2, "io phase": ["none", "immediate", "3 ns generator wait"]},
       outside=["max_connections rejections", "I/O handlers that emit events"]),
+    H(name="c08_batch_processor", fn=batch_processor, shape="S", budget=lambda tier: 900.0,
+      cubes=lambda tier: [{"batch_size_minus_1": a, "timeout": b} for a in range(3) for b in range(2)],
+      require=lambda tier: ["flushed_by_timeout", "flushed_when_full"], classify=_pipe_classify,
+      functions=["BatchProcessor.handle_event/_handle_timeout/_process_batch"],
+      bounds=lambda tier: {"items": 3 if tier == "quick" else 4, "arrivals": "symbolic ns [0,8]", "batch size": [1, 2, 3], "timeout ns": [0, 5], "process ns": 2},
+      outside=["a timeout falling on the very instant of an arrival (either order accepted)", "other industrial variants: balking, reneging, conveyor, gate, pooled cycle, shift schedule"]),
 ]
